@@ -8,6 +8,7 @@ import dis_checks
 import thr_checks
 import sub_checks
 import gen_checks
+import conv_checks
 
 CORE_A = ["Model/Base.v", "Model/Dispatch.v", "Model/Routing.v", "Model/DispLane.v", "Gen/DispatchSrc.v", "Gen/ConvSrc.v",
           "Proofs/DispatchProofs.v", "Proofs/RoutingProofs.v", "Proofs/SrcObligations.v"]
@@ -79,6 +80,24 @@ def _c10(v, b, tier):
     tpl_checks.check_c10(v, b.t1_summary, 60 * SIZES[tier], 5)
 
 
+CORE_CONV = ["Model/Base.v", "Model/Templates.v", "Model/Conv.v", "Model/ConvSpec.v", "Model/ConvLane.v", "Gen/GenSrc.v",
+             "Proofs/TemplatesProofs.v", "Proofs/SrcObligationsGen.v", "Proofs/ClassSound.v"]
+
+RULE_CONV = ("worlds = 2 enums + 1-4 generated classes (attrs, frozen attrs, dataclasses; 0-4 attributes in random order, required / default / factory, kw_only, "
+             "private names, untyped, recursive references through Optional / List / Dict) ; per world 2-3 top-level types drawn from every constructor of the nested "
+             "universe (Any, int/float/str/bytes/bool, Enum, Literal, List/list/Sequence/MutableSequence, homogeneous and heterogeneous tuples, Set/FrozenSet, "
+             "Dict/Mapping, Optional, classes, NewType, Annotated; depth <= 3, random spelling); per type 2 conforming values; per value 4 of the 8 converter configurations "
+             "(class x validation mode x strategy, 25% with forbid_extra_keys), converters kept alive for the whole world; per configuration: unstructure, structure of the "
+             "result by the same and by other configurations, two mutated payloads (corrupt / drop / add / retype a component at any depth) and one junk object; "
+             "non-trivial = composite type or class; distinct = sha1 of (world, operation, configuration, type, input)")
+
+
+def _conv(prop, base):
+    def run(v, b, tier):
+        conv_checks.check_conv(v, prop, b.t1_summary, base * SIZES[tier])
+    return run
+
+
 RULE_TPL = ("scenarios = a generated attrs class or dataclass (0-6 attributes in random order, each independently required / default / factory, "
             "kw_only, init=False, private or explicit alias, field converter, untyped) x generator options (forbid, use_alias, include_init_false) x "
             "per-attribute overrides (omit, rename incl. quote/backslash keys) ; payloads = mostly-valid dicts (missing / bad / extra keys) plus "
@@ -90,6 +109,7 @@ RULE_DISP = ("sessions of public-API operations (register_*_hook on classes/NewT
              "and 13 predicates; a case is non-trivial if it has >= 3 operations of >= 2 kinds; distinct = distinct sha1 of the step list")
 
 REGISTRY = {
+    "C02": {"props_file": "Props/C02.v", "files": CORE_CONV + ["Proofs/ConvSound.v", "Props/C02.v"], "run": _conv("C02", 40), "rule": RULE_CONV, "t1_sections": ["gen"]},
     "C04": {"props_file": "Props/C04.v", "files": CORE_TPL + ["Props/C04.v"], "run": _c04, "rule": RULE_TPL, "t1_sections": ["gen"]},
     "C09": {"props_file": "Props/C09.v", "files": CORE_TPL + ["Proofs/UnstructProofs.v", "Props/C09.v"], "run": _c09, "rule": RULE_TPL, "t1_sections": ["gen"]},
     "C20": {"props_file": "Props/C20.v", "files": ["Model/Base.v", "Model/FieldConv.v", "Props/C20.v"], "run": _c20, "t1_sections": [],
